@@ -77,3 +77,49 @@ Proof.
             (nexts_rev nat ClosureExamples.succ5 unit) (sched_rev nat unit) (fun _ => True) [0] 10 10 tt tt);
     auto using oracle_ok_id, oracle_ok_rev; vm_compute; reflexivity.
 Qed.
+
+(** * Code-level theorems on the faithful model of [Visitor.Visit] (Model/Visit.v, tied by tools/props/travlib.py)
+      and on the model of [funcutil.MapParallel] (Model/MapPar.v, tied by tools/props/c20.py) *)
+From Argot Require Model.Visit Proofs.VisitBase Proofs.VisitInv Proofs.VisitClosure Proofs.VisitExamples Model.MapPar Proofs.MapParTop.
+From Coq Require NArith.
+
+(** order independence of the real traversal's visited-key set and reported sinks, UNDER the hypothesis that successors
+    are determined by the key *)
+Theorem visit_order_indep : forall (g : Visit.graph) (P : Visit.preds) (cfg : Visit.config) (src : Visit.id)
+    (o1 o2 : VisitBase.oracle) (fuel1 fuel2 : nat) (t : list Visit.id) (al1 al2 : BinNums.N) (st1 st2 : Visit.state),
+  VisitClosure.key_determines_succ g P cfg src o1 o2 -> VisitClosure.key_determines_succ g P cfg src o2 o1 ->
+  Visit.visit g P cfg o1 src fuel1 t al1 = Visit.Done st1 ->
+  Visit.visit g P cfg o2 src fuel2 t al2 = Visit.Done st2 ->
+  (forall k : list BinNums.positive,
+     List.In k (List.map Visit.vkey (Visit.st_visited st1)) <-> List.In k (List.map Visit.vkey (Visit.st_visited st2))) /\
+  (forall (n : Visit.id) (tr : list Visit.id),
+     List.In (n, tr) (List.map (fun v : Visit.vnode => (Visit.v_node v, Visit.v_trace v)) (Visit.st_hits st1)) <->
+     List.In (n, tr) (List.map (fun v : Visit.vnode => (Visit.v_node v, Visit.v_trace v)) (Visit.st_hits st2))).
+Proof. exact VisitClosure.order_indep_lemma. Qed.
+
+(** ... and that hypothesis is NOT a property of the code: the expansion reads [Prev], the depth and the closure-tracing
+    index, none of which is in [Key()].  Witness: a 9-node path-insensitive graph on which two map-iteration orders
+    (both permutations) give different sink sets.  This is a statement about the traversal over ABSTRACT graphs; a Go
+    program whose two arrivals race (a flaky report) was searched for and not found (status/trav.md); the deterministic
+    consequence — a flow lost because a parameter node is first reached from inside its function — is real and is
+    listed as C01 finding [param-reached-from-inside-first]. *)
+Theorem visit_order_dep_refuted :
+  exists (g : Visit.graph) (P : Visit.preds) (cfg : Visit.config) (src : Visit.id) (t : list Visit.id) (fuel : nat)
+         (o1 o2 : VisitBase.oracle),
+    VisitBase.ord_perm o1 /\ VisitBase.ord_perm o2 /\ VisitInv.path_insensitive g /\ VisitInv.wf_trace g t /\
+    VisitExamples.is_done (Visit.visit g P cfg o1 src fuel t BinNums.N0) = true /\
+    VisitExamples.is_done (Visit.visit g P cfg o2 src fuel t BinNums.N0) = true /\
+    VisitExamples.hit_nodes (Visit.visit g P cfg o1 src fuel t BinNums.N0) = nil /\
+    VisitExamples.hit_nodes (Visit.visit g P cfg o2 src fuel t BinNums.N0) <> nil.
+Proof. exact VisitExamples.order_dep_refuted_lemma. Qed.
+
+(** schedule independence of the parallel summary pass: under EVERY scheduler [MapParallel] returns the sequential
+    map in input order (the summaries then depend only on the function and on read-only state) *)
+Theorem mappar_schedule_independent : forall A B (f : A -> B) (zero : B) (xs : list A) (nr : BinNums.Z) (sched : nat -> nat),
+  let n := MapPar.nworkers nr in
+  let r := MapPar.run A B f zero (MapPar.bound (length xs) n) sched (MapPar.init A B xs nr) in
+  snd r = MapPar.bound (length xs) n /\
+  MapPar.st_result (fst r) = Some (Some (List.map f xs)) /\
+  MapPar.all_terminated A B (fst r) = true /\
+  MapPar.enabled A B f zero (fst r) = nil.
+Proof. exact MapParTop.mappar_correct_sched. Qed.
